@@ -114,7 +114,9 @@ where
     for t in 0..n_ticks {
         let l: Vec<Kv> = if t == 0 { l1.clone() } else { cx.env.free_seq(later_max, 4).into_iter().map(dec).collect() };
         let r: Vec<Kv> = cx.env.free_seq(if t == 0 { cx.max_len } else { later_max }, 4).into_iter().map(dec).collect();
-        params += &format!("tick{}[{} L={l:?} R={r:?}] ", t + 1, if modes[t] { "new" } else { "incr" });
+        if cx.want_params {
+            params += &format!("tick{}[{} L={l:?} R={r:?}] ", t + 1, if modes[t] { "new" } else { "incr" });
+        }
 
         let before = join(&ml, &mr);
         let (bl, br) = (ml.entries.clone(), mr.entries.clone());
@@ -184,12 +186,21 @@ pub static SECTIONS: &[Section] = &[
 ];
 
 /// Shards of a section: every (kind, persistence, mode vector, first left input).
-pub fn shards(n_ticks: usize, l1_max: usize) -> Vec<Vec<u8>> {
+pub fn shards(n_ticks: usize, l1_max: usize, reduced: bool) -> Vec<Vec<u8>> {
     let l1s = vf_explore::combi::sequences_upto(&[0u8, 1, 2, 3], l1_max);
     let mut out = vec![];
-    for kind in 0..4u8 {
+    // `reduced` (quick tier, 3-tick histories): only the two homogeneous state kinds and only
+    // histories in which at least one side persists (the others are covered by 1-/2-tick sections).
+    let kinds: &[u8] = if reduced { &[0, 1] } else { &[0, 1, 2, 3] };
+    for &kind in kinds {
         // With a single tick the persistence flags cannot matter.
-        let persists: Vec<(u8, u8)> = if n_ticks == 1 { vec![(0, 0)] } else { vec![(0, 0), (0, 1), (1, 0), (1, 1)] };
+        let persists: Vec<(u8, u8)> = if n_ticks == 1 {
+            vec![(0, 0)]
+        } else if reduced {
+            vec![(0, 1), (1, 0), (1, 1)]
+        } else {
+            vec![(0, 0), (0, 1), (1, 0), (1, 1)]
+        };
         for (pl, pr) in persists {
             for modes in vf_explore::combi::sequences(&[1u8, 0], n_ticks) {
                 for l1 in &l1s {
